@@ -36,6 +36,8 @@ type Stats struct {
 	Sample       []string         `json:"sample_obs,omitempty"`
 	SampleSched  []int            `json:"sample_schedule,omitempty"`
 	Counters     map[string]int64 `json:"counters,omitempty"`
+	Pruned       int64            `json:"pruned"`
+	States       int64            `json:"states"`
 }
 
 // Explorer performs a stateless depth-first search over choice sequences with
@@ -59,6 +61,8 @@ type Explorer struct {
 	seenViol   map[string]bool
 	taskCtr    int
 	timedOut   bool
+	visited    map[uint64]int16
+	NoCache    bool // disable happens-before state caching (plain stateless search)
 }
 
 // DebugDiverge, when set, is called with parent and child executions on a replay divergence.
@@ -192,12 +196,20 @@ func (e *Explorer) Explore() bool {
 	}
 	e.exploreNode(a, 0, 0)
 	e.Stats.DistinctObs = len(e.Stats.Distinct)
+	e.Stats.States = int64(len(e.visited))
 	e.Stats.Complete = !e.timedOut
 	return !e.timedOut
 }
 
 // exploreNode processes an already executed node x whose prefix had length plen,
 // at tree depth d (0 = root).
+//
+// State caching: every choice point carries the happens-before signature of
+// the state in which it is taken. visited[(sig, alternative)] remembers the
+// largest remaining preemption budget with which that alternative has been
+// (or is being) explored from that state; a later arrival with no more budget
+// is pruned, since equal signatures mean equal states (same per-thread causal
+// histories) and therefore equal futures.
 func (e *Explorer) exploreNode(x *Exec, plen int, depth int) {
 	mine := depth >= 2 || e.Shard == 0 // top two levels are re-executed by every shard; only shard 0 counts them
 	e.account(x, mine)
@@ -206,6 +218,21 @@ func (e *Explorer) exploreNode(x *Exec, plen int, depth int) {
 	}
 	if x.Verdict == VDiverge {
 		return
+	}
+	if e.visited == nil {
+		e.visited = map[uint64]int16{}
+	}
+	budget := func(used int) int16 {
+		if e.Bound < 0 {
+			return 1 << 14
+		}
+		return int16(e.Bound - used)
+	}
+	altKey := func(c *ChoicePoint, alt int) uint64 {
+		if c.Env {
+			return mix(c.Sig, uint64(alt)+0xe17)
+		}
+		return mix(c.Sig, c.Sids[alt])
 	}
 	// preemptions used before each point
 	cost := 0
@@ -218,12 +245,9 @@ func (e *Explorer) exploreNode(x *Exec, plen int, depth int) {
 	}
 	base := chosen(x)
 	for i := plen; i < len(x.Choices); i++ {
-		c := x.Choices[i]
+		c := &x.Choices[i]
 		for alt := 0; alt < c.N; alt++ {
 			if alt == c.Chosen {
-				continue
-			}
-			if alt < c.Chosen && i < plen {
 				continue
 			}
 			nc := costs[i]
@@ -234,11 +258,20 @@ func (e *Explorer) exploreNode(x *Exec, plen int, depth int) {
 				continue
 			}
 			if depth == 1 {
-				// children of depth-1 nodes are the shard tasks
+				// children of depth-1 nodes are the shard tasks (numbered before any pruning so that all shards agree)
 				e.taskCtr++
 				if e.taskCtr%e.NShards != e.Shard {
 					continue
 				}
+			}
+			if !e.NoCache {
+				k := altKey(c, alt)
+				rem := budget(nc)
+				if v, ok := e.visited[k]; ok && v >= rem {
+					e.Stats.Pruned++
+					continue
+				}
+				e.visited[k] = rem
 			}
 			if !e.Deadline.IsZero() && time.Now().After(e.Deadline) {
 				e.timedOut = true
@@ -254,6 +287,20 @@ func (e *Explorer) exploreNode(x *Exec, plen int, depth int) {
 			e.exploreNode(y, i+1, depth+1)
 			if e.timedOut || len(e.Violations) >= e.MaxViol {
 				return
+			}
+		}
+		// the default continuation from this state
+		if !e.NoCache {
+			k := altKey(c, c.Chosen)
+			rem := budget(costs[i+1])
+			if v, ok := e.visited[k]; ok && v >= rem {
+				if depth >= 2 {
+					// everything beyond this point has been explored from an identical state
+					e.Stats.Pruned++
+					return
+				}
+			} else {
+				e.visited[k] = rem
 			}
 		}
 	}
